@@ -176,7 +176,7 @@ PROPS = {
             {"name": "incl", "quick": 60000, "thorough": 6000000, "thorough_time": 300},
             {"name": "incl-booking", "quick": 20000, "thorough": 2000000, "thorough_time": 120, "extra": ["-sim.only=booking-rpc,list-include,fold-mismatch,panic"]},
         ],
-        "require_hits": ["collection.sub.listen", "bus.send.each", "collection.publish"],
+        "require_hits": ["bus.send.each", "collection.publish"],
         "assumptions": ["subscriptions are opened between writes (single-writer histories as in the statement)"],
     },
     "C01": {
